@@ -27,7 +27,7 @@ Inv == /\ RankMonotone(d, Vs)
        /\ Consistent(d, Qs(d))
 
 \* behaviour generator: one line per digest with the expected rank / quantile of every grid point
-Heavy(x) == Wt(x, 1) > 1 \/ Wt(x, N(x)) > 1      \* (a single heavy centroid included)
+Heavy(x) == \E i \in 1..N(x) : Wt(x, i) > 1       \* (digests of single values only are reached by plain streams)
 Emit == (EmitHeavy /\ Heavy(d)) =>
           PrintT(<<"REPLAY", ToJson([min |-> d.min, max |-> d.max, cs |-> d.cs,
                                      vs |-> Vs, rk |-> [i \in 1..Len(Vs) |-> Rank(d, Vs[i])],
